@@ -197,35 +197,43 @@ func fetchCheckpoint(runIds []string, cli client.Redis, db int, checkpointName s
 		return cpi, fmt.Errorf("hgetall checkpoint error : cp(%s), runId(%v), err(%w)", checkpointName, runIds, err)
 	} else {
 
+		// the hash may hold a record of each of the two ids (a re-keying that was interrupted after
+		// the new record was written) : every record is read from its own fields, whatever order
+		// the fields come in, and the one that reaches furthest is the position
+		first := cpi
+		second := &CheckpointInfo{Key: checkpointName, RunId: "?", Offset: -1}
+
 		replyList := reply.([]interface{})
 		// read line by line and parse the offset
 		for i := 0; i < len(replyList); i += 2 {
 			lineS, _ := common.String(replyList[i], nil)
 
 			matchId := strings.HasPrefix(lineS, runIds[0])
+			rec := first
 			if !matchId && len(runIds) > 1 {
 				matchId = strings.HasPrefix(lineS, runIds[1])
+				rec = second
 			}
 			if matchId {
 				if strings.Contains(lineS, CheckpointOffsetSuffix) {
 
-					cpi.Offset, err = common.Int64(replyList[i+1], nil)
+					rec.Offset, err = common.Int64(replyList[i+1], nil)
 					if err != nil {
 						return nil, fmt.Errorf("parse offset(%v) of checkpoint(%s) error : error(%w), runid(%v)",
 							replyList[i+1], checkpointName, err, runIds)
 					}
 				}
 				if strings.Contains(lineS, CheckpointRunIdSuffix) {
-					cpi.RunId, err = common.String(replyList[i+1], nil)
+					rec.RunId, err = common.String(replyList[i+1], nil)
 					if err != nil {
 						return nil, err
 					}
 				}
 				if strings.Contains(lineS, CheckpointVersionSuffix) {
-					cpi.Version, _ = common.String(replyList[i+1], nil)
+					rec.Version, _ = common.String(replyList[i+1], nil)
 				}
 				if strings.Contains(lineS, CheckpointMtimeSuffix) {
-					cpi.Mtime, err = common.Int64(replyList[i+1], nil)
+					rec.Mtime, err = common.Int64(replyList[i+1], nil)
 					if err != nil {
 						return nil, fmt.Errorf("parse mtime(%v) of checkpoint(%s) error : error(%w), runid(%v)",
 							replyList[i+1], checkpointName, err, runIds)
@@ -233,8 +241,18 @@ func fetchCheckpoint(runIds []string, cli client.Redis, db int, checkpointName s
 				}
 			}
 		}
+		cpi = furthestCheckpoint(first, second)
 	}
 	return cpi, nil
+}
+
+// furthestCheckpoint picks the record a start resumes from among the records of the source's two
+// ids : the one that reaches furthest, the current id's on a tie.
+func furthestCheckpoint(first, second *CheckpointInfo) *CheckpointInfo {
+	if second.Offset > first.Offset {
+		return second
+	}
+	return first
 }
 
 // clear checkpoint of dbs
